@@ -1,0 +1,85 @@
+//! Verification hooks for property C44 (compiled only with `--cfg libp2p_verif`).
+//!
+//! Declared as a child of `protocol` so that the private conversion functions and the private
+//! `Codec::new` are reachable.  Every function only *calls* existing code.
+
+use super::*;
+pub use super::{KadRequestMsg, KadResponseMsg};
+pub use crate::proto::{
+    ConnectionType as PbConnectionType, Message as PbMessage, MessageType as PbMessageType,
+    Peer as PbPeer, Record as PbRecord,
+};
+
+pub const MAX_PACKET_SIZE: usize = DEFAULT_MAX_PACKET_SIZE;
+
+pub fn req_to_proto(m: KadRequestMsg) -> proto::Message {
+    req_msg_to_proto(m)
+}
+pub fn resp_to_proto(m: KadResponseMsg) -> proto::Message {
+    resp_msg_to_proto(m)
+}
+pub fn proto_to_req(m: proto::Message) -> Result<KadRequestMsg, io::Error> {
+    proto_to_req_msg(m)
+}
+pub fn proto_to_resp(m: proto::Message) -> Result<KadResponseMsg, io::Error> {
+    proto_to_resp_msg(m)
+}
+pub fn rec_to_proto(r: Record) -> proto::Record {
+    record_to_proto(r)
+}
+pub fn rec_from_proto(r: proto::Record) -> Result<Record, io::Error> {
+    record_from_proto(r)
+}
+
+/// The outbound side's codec (`KadOutStreamSink`): encodes requests.
+pub fn encode_req(m: KadRequestMsg, max_packet_size: usize) -> Result<Vec<u8>, io::Error> {
+    let mut codec = Codec::<KadRequestMsg, KadResponseMsg>::new(max_packet_size);
+    let mut dst = BytesMut::new();
+    codec.encode(m, &mut dst)?;
+    Ok(dst.to_vec())
+}
+
+/// The inbound side's codec (`KadInStreamSink`): encodes responses.
+pub fn encode_resp(m: KadResponseMsg, max_packet_size: usize) -> Result<Vec<u8>, io::Error> {
+    let mut codec = Codec::<KadResponseMsg, KadRequestMsg>::new(max_packet_size);
+    let mut dst = BytesMut::new();
+    codec.encode(m, &mut dst)?;
+    Ok(dst.to_vec())
+}
+
+/// The inbound side's codec: decodes requests. Returns the message and the number of bytes left.
+pub fn decode_req(
+    bytes: &[u8],
+    max_packet_size: usize,
+) -> Result<Option<(KadRequestMsg, usize)>, io::Error> {
+    let mut codec = Codec::<KadResponseMsg, KadRequestMsg>::new(max_packet_size);
+    let mut src = BytesMut::from(bytes);
+    Ok(codec.decode(&mut src)?.map(|m| (m, src.len())))
+}
+
+/// The outbound side's codec: decodes responses.
+pub fn decode_resp(
+    bytes: &[u8],
+    max_packet_size: usize,
+) -> Result<Option<(KadResponseMsg, usize)>, io::Error> {
+    let mut codec = Codec::<KadRequestMsg, KadResponseMsg>::new(max_packet_size);
+    let mut src = BytesMut::from(bytes);
+    Ok(codec.decode(&mut src)?.map(|m| (m, src.len())))
+}
+
+/// The framing + protobuf layer alone (what `Codec` wraps).
+pub fn encode_proto(m: proto::Message, max_packet_size: usize) -> Result<Vec<u8>, io::Error> {
+    let mut codec = prost_codec::Codec::<proto::Message>::new(max_packet_size);
+    let mut dst = BytesMut::new();
+    codec.encode(m, &mut dst)?;
+    Ok(dst.to_vec())
+}
+
+pub fn decode_proto(
+    bytes: &[u8],
+    max_packet_size: usize,
+) -> Result<Option<(proto::Message, usize)>, io::Error> {
+    let mut codec = prost_codec::Codec::<proto::Message>::new(max_packet_size);
+    let mut src = BytesMut::from(bytes);
+    Ok(codec.decode(&mut src)?.map(|m| (m, src.len())))
+}
